@@ -10,6 +10,8 @@ import GV.Model.CbGuard
 import GV.Spec.JsTable
 import GV.Proofs.Utf16
 import GV.Proofs.JsConv
+import GV.Proofs.JsRoundtrip
+import GV.Proofs.CbGuard
 
 namespace GV.Props.C11
 open GV.JsConv GV.Utf16 GV.Utf8 GV.Spec.JsTable GV.Spec.Utf8
@@ -68,14 +70,14 @@ example : internalizeString [0xD800, 0x61] = [0xE2, 0x91, 0xA1] := by decide
 /-! ## scalars and 64-bit integers -/
 
 /-- **roundtrip_scalar** — every documented scalar (bool, integers in range, 64-bit integers with |v| ≤ 2^53, floats by
-    token identity — NaN, ±Inf, every finite token — except `-0`, well-formed UTF-8 strings) round-trips. -/
-theorem roundtrip_scalar (τ : Ty) (v : GoVal) (h : RTScalar τ v) (hz : v ≠ .num .negZero) :
+    token identity — NaN, ±Inf, `-0`, every finite token —, well-formed UTF-8 strings) round-trips. -/
+theorem roundtrip_scalar (τ : Ty) (v : GoVal) (h : RTScalar τ v) :
     ∃ j, externalize τ v = .ok j ∧ internalize τ j = .ok v :=
-  GV.Proofs.JsConv.roundtrip_scalar τ v h hz
+  GV.Proofs.JsConv.roundtrip_scalar τ v h
 
-/-- the sign of zero IS lost: `-0` externalizes to `-0` and internalizes (`parseFloat(String(-0))`) to `+0`. -/
+/-- the sign of zero is kept: `-0` externalizes to `-0` and internalizes (`$parseFloat`) to `-0`. -/
 theorem roundtrip_negzero :
-    (externalize .f64 (.num .negZero)).bind (internalize .f64) = .ok (.num (.int 0)) := by rfl
+    (externalize .f64 (.num .negZero)).bind (internalize .f64) = .ok (.num .negZero) := by rfl
 
 /-- **mk64_exact** — `new $Uint64(0, n)` represents `n mod 2^64` for EVERY integer-valued double n (no bound), and
     `new $Int64(0, n)` the same residue with the high word read as signed. -/
@@ -102,62 +104,27 @@ theorem roundtrip64_beyond :
 
 /-! ## composites: round trip by structural induction -/
 
-/-- the inductive round-trip domain (GV.Proofs.JsConv.RT): bool, in-range integers, 64-bit integers with |v| ≤ 2^53,
-    floats, valid UTF-8 strings, nil slices, and slices — nested to any depth — of such values (numeric element kinds
-    travel as typed arrays of the documented class, all others as Arrays). -/
-def roundtrip_full : Prop :=
-  ∀ (τ : Ty) (v : GoVal), GV.Proofs.JsConv.RT τ v → ∃ j, externalize τ v = .ok j ∧ internalize τ j = .ok v
+/-- **roundtrip** — for every (τ, v) of the documented domain (`GV.Proofs.JsConv.RT`: bool, in-range integers, 64-bit integers
+    with |v| ≤ 2^53, floats incl. NaN and `-0`, valid UTF-8 strings; nil and non-nil slices — numeric element kinds travel
+    as typed arrays of the documented class —, arrays, nil and non-nil string-keyed maps with distinct well-formed keys,
+    structs whose unexported fields hold their zero value; nested to any depth),
+    `$internalize($externalize(v, τ), τ) = v`. By induction on the value. -/
+theorem roundtrip (τ : Ty) (v : GoVal) (h : GV.Proofs.JsConv.RT τ v) :
+    ∃ j, externalize τ v = .ok j ∧ internalize τ j = .ok v :=
+  GV.Proofs.JsConv.roundtrip τ v h
 
-/-- the full statement is FALSE: `-0` (witness `float64(-0)`). -/
-theorem roundtrip_counterexample_negzero : ¬ roundtrip_full := by
-  intro h
-  obtain ⟨j, h1, h2⟩ := h .f64 (.num .negZero) (by simp [GV.Proofs.JsConv.RT, RTScalar])
-  have : j = .num .negZero := by
-    have : externalize .f64 (.num .negZero) = .ok (.num .negZero) := by rfl
-    rw [this] at h1; cases h1; rfl
-  subst this
-  have : internalize .f64 (.num .negZero) = .ok (.num (.int 0)) := by rfl
-  rw [this] at h2
-  cases h2
-
-/-- the full statement is FALSE also for the nil map (witness `map[string]bool(nil)`): it comes back empty, not nil. -/
-theorem roundtrip_counterexample_nilmap :
-    ¬ (∃ j, externalize (.map .bool) .nil = .ok j ∧ internalize (.map .bool) j = .ok .nil) := by
-  intro ⟨j, h1, h2⟩
-  have : externalize (.map .bool) .nil = .ok .null := by rfl
-  rw [this] at h1; cases h1
-  have : internalize (.map .bool) .null = .ok (.map [] []) := by rfl
-  rw [this] at h2
-  cases h2
-
-theorem roundtrip_nilmap (e : Ty) : (externalize (.map e) .nil).bind (internalize (.map e)) = .ok (.map [] []) := by
+/-- nil ↔ null for maps (and slices) -/
+theorem roundtrip_nilmap (e : Ty) : (externalize (.map e) .nil).bind (internalize (.map e)) = .ok .nil := by
   simp [externalize, internalize, Except.bind]
 
-/-- **roundtrip** (`roundtrip_partial`) — for every (τ, v) of the inductive domain that contains no `-0` (`clean`,
-    decidable), `$internalize($externalize(v, τ), τ) = v`; by induction on the value (slices nested to any depth).
-    String-keyed maps and structs with exported fields are NOT covered by this theorem (see `roundtrip_maps_structs`);
-    they are covered by the differential run only. -/
-theorem roundtrip (τ : Ty) (v : GoVal) (h : GV.Proofs.JsConv.RT τ v) (hc : GV.Proofs.JsConv.clean τ v = true) :
-    ∃ j, externalize τ v = .ok j ∧ internalize τ j = .ok v :=
-  GV.Proofs.JsConv.roundtrip τ v h hc
-
-example : GV.Proofs.JsConv.RT (.slice (.slice (.int .i8))) (.slice [.slice [.num (.int (-128)), .num (.int 127)], .nil]) ∧
-    GV.Proofs.JsConv.clean (.slice (.slice (.int .i8))) (.slice [.slice [.num (.int (-128)), .num (.int 127)], .nil]) = true := by
-  simp [GV.Proofs.JsConv.RT, GV.Proofs.JsConv.RTList, GV.Proofs.JsConv.domTy, GV.Proofs.JsConv.clean, GV.Proofs.JsConv.cleanList,
-    RTScalar, inRange]
-
-/-- the remaining part of the round-trip clause, stated and NOT proved here: non-nil string-keyed maps with distinct
-    well-formed keys and structs (exported fields; unexported fields holding their zero value) over round-tripping
-    element values round-trip. -/
-def roundtrip_maps_structs : Prop :=
-  (∀ (e : Ty) (ks : List (List Nat)) (vs : List GoVal), ks.length = vs.length → ks.Nodup → (∀ k ∈ ks, ValidUtf8 k) →
-      (∀ v ∈ vs, ∃ j, externalize e v = .ok j ∧ internalize e j = .ok v) →
-      ∃ j, externalize (.map e) (.map ks vs) = .ok j ∧ internalize (.map e) j = .ok (.map ks vs)) ∧
-  (∀ (flds : List Fld) (tys : List Ty) (fs : List GoVal), flds.length = tys.length → tys.length = fs.length →
-      (flds.map (·.name)).Nodup → searchJs (.struct flds tys) (.struct fs) = none → wrapJs (.struct flds tys) .null = none →
-      (∀ i (hi : i < fs.length) (h1 : i < flds.length) (h2 : i < tys.length),
-        if flds[i].exported then ∃ j, externalize tys[i] fs[i] = .ok j ∧ internalize tys[i] j = .ok fs[i] else fs[i] = zeroVal tys[i]) →
-      ∃ j, externalize (.struct flds tys) (.struct fs) = .ok j ∧ internalize (.struct flds tys) j = .ok (.struct fs))
+/-- the domain is inhabited by non-trivial nested values: a struct holding a map of typed-array slices, an array, `-0`,
+    and an unexported field -/
+example : GV.Proofs.JsConv.RT
+    (.struct [⟨[65], true⟩, ⟨[98], false⟩, ⟨[67], true⟩] [.map (.slice (.int .i8)), .str, .arr 2 .f64])
+    (.struct [.map [[107]] [.slice [.num (.int (-128)), .num (.int 127)]], .str [], .arr [.num .negZero, .num .nan]]) := by
+  simp [GV.Proofs.JsConv.RT, GV.Proofs.JsConv.RTList, GV.Proofs.JsConv.RTFields, GV.Proofs.JsConv.domTy, GV.Proofs.JsConv.domTys,
+    RTScalar, inRange, zeroVal]
+  exact ⟨[107], by decide, by decide⟩
 
 /-! ## the documented table -/
 
@@ -203,47 +170,66 @@ theorem wrapper_injective (h : List Nat) (f1 f2 w : Nat)
 /-! ## the callback guard -/
 open GV.CbGuard
 
-/-- the full statement of the property's last clause: a send that has to block inside a JavaScript callback raises the
-    documented error AND leaves channel queues, run queue and counters unchanged. NOT claimed. -/
-def callback_guard_full : Prop :=
-  ∀ (s : St) (v : Nat), s.cur = none → sendBlocks s → send s v = (.errCannotBlock, s)
+/-- the operation is executed inside a JavaScript callback -/
+abbrev byCallback : Ev → Prop
+  | .send g _ => g = none
+  | .recv g => g = none
+  | .select g _ _ => g = none
+  | .dequeue => False
 
-/-- FALSE today: `$send` enqueues before `$block()` checks. Witness: unbuffered channel, send 7 in a callback. -/
-theorem callback_guard_counterexample : ¬ callback_guard_full := by
+/-- **callback_guard** (full strength) — whenever an operation executed in a JavaScript callback raises "cannot block in
+    JavaScript callback", the channel queues, the buffer, the run queue and the counters are exactly what they were:
+    for `$send`, `$recv` and `$select` (any cases, any random choice), from every state. -/
+theorem callback_guard (s : St) (e : Ev) (hc : s.cur = none) (hcb : byCallback e)
+    (h : (step s e).1 = .errCannotBlock) : (step s e).2 = s := by
+  have hs : ({ s with cur := none } : St) = s := by cases s; simp_all
+  cases e with
+  | send g v =>
+    simp only [byCallback] at hcb; subst hcb
+    simp only [step, hs] at h ⊢
+    rw [GV.Proofs.CbGuard.send_guard s v hc h]; exact hs
+  | recv g =>
+    simp only [byCallback] at hcb; subst hcb
+    simp only [step, hs] at h ⊢
+    rw [GV.Proofs.CbGuard.recv_guard s hc h]; exact hs
+  | select g pick cs =>
+    simp only [byCallback] at hcb; subst hcb
+    simp only [step, hs] at h ⊢
+    rw [GV.Proofs.CbGuard.select_guard s cs pick hc h]; exact hs
+  | dequeue => exact absurd hcb (by simp [byCallback])
+
+/-- a send that has to block: channel open, no waiting receiver, buffer full -/
+abbrev sendBlocks (s : St) : Prop := s.chan.closed = false ∧ s.chan.recvQ = [] ∧ ¬ s.chan.buffer.length < s.chan.capacity
+
+/-- a receive that has to block: nothing queued or buffered, channel open -/
+abbrev recvBlocks (s : St) : Prop := s.chan.sendQ = [] ∧ s.chan.buffer = [] ∧ s.chan.closed = false
+
+/-- **callback_guard_raised** — and the documented error IS raised when a callback has to block -/
+theorem callback_guard_raised (s : St) (v : Nat) (hc : s.cur = none) :
+    (sendBlocks s → send s v = (.errCannotBlock, s)) ∧ (recvBlocks s → recv s = (.errCannotBlock, s)) := by
+  constructor
+  · intro ⟨h1, h2, h3⟩
+    simp [send, h1, h2, h3, canBlock, hc]
+  · intro ⟨h1, h2, h3⟩
+    simp [recv, pullSender, h1, h2, h3, canBlock, hc]
+
+example : sendBlocks (init 0) ∧ recvBlocks (init 0) ∧ (init 0).cur = none := by decide
+
+/-- the former witness {callback send, goroutine receive, dequeue} is harmless now: error, the goroutine blocks, nothing to run -/
+theorem callback_guard_witness :
+    (run (init 0) [.send none 7, .recv (some 1), .dequeue]).1 = [.errCannotBlock, .blocked, .idle] ∧
+    (run (init 0) [.select none 0 [.send 5, .recv], .recv (some 1), .send (some 2) 4, .dequeue]).1
+      = [.errCannotBlock, .blocked, .done, .resumed 1] := by
+  decide
+
+/-! ### repaired defects (the scheme before fixes/C11-callback-guard.patch) -/
+
+/-- with the old `$send` (enqueue first, `$block()` checks afterwards) the statement was false: the entry survived -/
+theorem callback_guard_old_counterexample :
+    ¬ (∀ (s : St) (v : Nat), s.cur = none → sendBlocks s → sendOld s v = (.errCannotBlock, s)) := by
   intro h
   have := h (init 0) 7 rfl (by decide)
   revert this
   decide
-
-/-- the 3-event witness {callback send, goroutine receive, dequeue}: the error is raised, the receiver then gets the
-    value of the failed send, `$noGoroutine` is scheduled, and `$runScheduled` dies with `TypeError: r is not a function`. -/
-theorem callback_guard_witness :
-    (run (init 0) [.send none 7, .recv (some 1), .dequeue]).1 = [.errCannotBlock, .value 7, .typeErrorNotAFunction] := by
-  decide
-
-/-- **callback_guard_partial** — the documented error IS raised, and the only change to the state is the one surviving
-    `$sendQueue` entry owned by `$noGoroutine` (buffer, receive queue, run queue, counters are untouched). -/
-theorem callback_guard_partial (s : St) (v : Nat) (hc : s.cur = none) (hb : sendBlocks s) :
-    send s v = (.errCannotBlock, { s with chan := { s.chan with sendQ := s.chan.sendQ ++ [(none, v)] } }) := by
-  obtain ⟨h1, h2, h3⟩ := hb
-  unfold send
-  simp [h1, h2, h3, block, hc]
-
-theorem callback_guard_partial_recv (s : St) (hc : s.cur = none) (hb : recvBlocks s) :
-    recv s = (.errCannotBlock, { s with chan := { s.chan with recvQ := s.chan.recvQ ++ [none] } }) := by
-  obtain ⟨h1, h2, h3⟩ := hb
-  unfold recv
-  simp [h1, h2, h3, block, hc]
-
-example : sendBlocks (init 0) ∧ (init 0).cur = none := by decide
-
-/-- **callback_guard_damage** — after ANY failed callback send on a channel with nothing else queued, the next goroutine
-    that receives gets the value and `$noGoroutine` lands on the run queue. -/
-theorem callback_guard_damage (s : St) (v g : Nat) (hb : sendBlocks s) (hq : s.chan.sendQ = []) (hbuf : s.chan.buffer = []) :
-    let s1 := (step s (.send none v)).2
-    (step s1 (.recv (some g))).1 = .value v ∧ none ∈ (step s1 (.recv (some g))).2.scheduled := by
-  obtain ⟨h1, h2, h3⟩ := hb
-  have hcap : s.chan.capacity = 0 := by rw [hbuf] at h3; simpa using h3
-  simp [step, send, recv, block, schedule, h1, h2, hcap, hq, hbuf]
 
 end GV.Props.C11
